@@ -397,7 +397,8 @@ class World(object):
 
         if cfg.onpub:
             p.onPublish = on_publish
-        if cfg.ondisc:
+        c.has_ondisc = bool(cfg.ondisc) and (cfg.ondisc != "alt" or c.idx % 2 == 0)     # "alt": only every other protocol gets a handler
+        if c.has_ondisc:
             p.onDisconnection = on_disc
         if cfg.onconn or cfg.re_pub_on_connmade or cfg.re_disc_on == "connmade":
             p.onMqttConnectionMade = on_connmade
@@ -547,6 +548,9 @@ class World(object):
             tok = self._tok(c.a)
             toks.append(tok)
             # the first filter carries the token; the others are the same few strings in every call, as in real applications
+            if tkind == "same":      # the very same filter(s) and QoS as in earlier calls (a re-subscribe after a reconnect); C07 workloads only
+                topics.append((SHARED_FILTERS[k % 2], qos))
+                continue
             topics.append((self._topic(tkind, tok) + "/s" if k == 0 else SHARED_FILTERS[k % 2], (qos + k) % 3))
         # for the tuple and list shapes the separate qos argument is a decoy: the QoS of each
         # entry is the one inside the tuple (every other call passes a different value there)
@@ -594,8 +598,8 @@ class World(object):
         c.tr = Transport(self, c, self.cfg.model, self.cfg.close_delay)
         self.live[a] = c
         self.cur[a] = c
-        self.ev("build", conn=c.idx, a=a)
         self._install_handlers(c)
+        self.ev("build", conn=c.idx, a=a, ondisc=c.has_ondisc)
         c.proto.makeConnection(c.tr)
         return c
 
@@ -772,6 +776,13 @@ class World(object):
         if c is None:
             return self.ev("skip", why="no protocol")
         self._api(c, "disconnect", c.proto.disconnect, ((), {}), {})
+
+    def s_ping(self, a):
+        """The application's own ping() (the keepalive loop is not the only source of PINGREQs)."""
+        c = self.cur.get(a)
+        if c is None:
+            return self.ev("skip", why="no protocol")
+        self._api(c, "ping", c.proto.ping, ((), {}), {})
 
     def s_setwin(self, a, n):
         c = self.cur.get(a)
